@@ -79,6 +79,9 @@ def overlapping():
     return out
 
 
+SIBLINGS = {}
+
+
 def shadowing():
     """variants named like prelude items, glob-imported at the definition site: `every enum accepted without use_phf still
     compiles with it` includes these (the generated code must not rely on an unqualified Ok / Err / Some / None)"""
@@ -101,6 +104,10 @@ def build_corpus(tier, rng):
         cands.append(("own-name", Item(nm, [Variant("Dust", "unit"), Variant("Inferno", "unit", [], [aci(True, explicit=False), ser("inf")]),
                                             Variant("Rest", "tuple", [Field("String")], [DEFAULT])])))
         cands.append(("own-name", Item(nm, [Variant("Map", "unit"), Variant("PHF", "unit", [], [ser("p")])])))
+    # two enums in ONE module whose names snake-case alike (Rgb / RGB, HttpCode / HTTPCode): both accepted without use_phf, so both with it
+    for a_, b_ in (("Rgb", "RGB"), ("HttpCode", "HTTPCode"), ("E", "e")):
+        cands.append(("snake-equal-sibling", Item(a_, [Variant("Red", "unit"), Variant("Green", "unit", [], [aci(True, explicit=False), ser("g")])])))
+        SIBLINGS[a_] = b_
     # declared where there is NO prelude at all (#![no_implicit_prelude]): accepted without use_phf, so accepted with it (the generated code
     # may not rely on a prelude trait being in scope for a method call)
     for j, vs in enumerate(([Variant("Fast", "unit"), Variant("Slow", "unit", [], [aci(True, explicit=False), ser("s")])],
@@ -137,9 +144,15 @@ def build_corpus(tier, rng):
             rejected += 1
             continue
         sh = fam == "prelude-shadow"
-        k = c.add_def(it, family=fam, derives=["EnumString"], info=info, twin=None, shadow_prelude=sh)
+        sib = sib2 = None
+        if fam == "snake-equal-sibling":
+            sib = copy.deepcopy(it)
+            sib.ident = SIBLINGS[it.ident]
+            sib2 = copy.deepcopy(twins[ci])
+            sib2.ident = SIBLINGS[it.ident]
+        k = c.add_def(it, family=fam, derives=["EnumString"], info=info, twin=None, shadow_prelude=sh, sibling=sib)
         twin = twins[ci]
-        k2 = c.add_def(twin, family=fam, derives=["EnumString"], info=info, twin=k, shadow_prelude=sh)
+        k2 = c.add_def(twin, family=fam, derives=["EnumString"], info=info, twin=k, shadow_prelude=sh, sibling=sib2)
         seen = set()
         for s, note in G.fromstr_inputs(it, info, rng, flipcap=(256 if thorough else 16), nrandom=(30 if thorough else 6)):
             c.add_q(k, "fromstr", [S.hx(s)], note=note)
